@@ -41,8 +41,10 @@ def static_checks(ctx):
             return re.sub(r"\s+", "", open(os.path.join(REPO, rel)).read())
         except OSError:
             return ""
+    # each guard lists the accepted shapes: before and after fix 1acf5fd/d714329 (Result plumbing;
+    # `&` substituted without the detour through `unify`) — both are what the model equates
     fn = src("rsass/src/sass/functions/selector.rs")
-    if "v.fold(first,|b,e|b.nest(e,&b))" not in fn:
+    if not any(x in fn for x in ("v.fold(first,|b,e|b.nest(e,&b))", "v.try_fold(first,|b,e|b.nest(e,&b))?")):
         problems.append("sass/functions/selector.rs: selector.nest no longer folds `b.nest(e, &b)`")
     if "s.try_fold(base,|base,s|base.append(&s))" not in fn:
         problems.append("sass/functions/selector.rs: selector.append no longer folds `base.append(&s)`")
@@ -50,7 +52,8 @@ def static_checks(ctx):
     if "self.s.nest(selectors,self.get_backref())" not in ctxs:
         problems.append("css/selectors/context.rs: SelectorCtx::nest no longer calls `self.s.nest(selectors, self.get_backref())`")
     sel = src("rsass/src/css/selectors/selector.rs")
-    if "compound:s.compound.append(&self.compound).unwrap()" not in sel:
+    if not any(x in sel for x in ("compound:s.compound.append(&self.compound).unwrap()",
+                                  "letcompound=s.compound.append(&self.compound).map_err(")):
         problems.append("css/selectors/selector.rs: resolve_ref no longer appends `&`'s compound with CompoundSelector::append")
     return problems
 
@@ -264,7 +267,8 @@ def gen(tier, rng, boost=1):
                 t = rng.choice(b)
                 c = rng.choice(t.comps)
                 c.backref = True
-                c.elem = None
+                # `&` + a name: a suffix glued to the parent (an error when the parent does not end in a name)
+                c.elem = rng.choice([None, None, None, "-s", "x"])
             yield Case(line_nest(a, b), "nest")
         else:
             q = "n"
